@@ -19,17 +19,42 @@ impl Visitor<'_> for CacheControlCalculate<'_> {
         ctx: &mut VisitorContext<'_>,
         _selection_set: &Positioned<SelectionSet>,
     ) {
-        if let Some(MetaType::Object { cache_control, .. }) = ctx.current_type() {
-            *self.cache_control = self.cache_control.merge(cache_control);
+        match ctx.current_type() {
+            Some(MetaType::Object { cache_control, .. }) => {
+                *self.cache_control = self.cache_control.merge(cache_control);
+            }
+            // The data may be any of the possible types of an interface or union.
+            Some(ty) => {
+                for name in ty.possible_types().into_iter().flatten() {
+                    if let Some(MetaType::Object { cache_control, .. }) =
+                        ctx.registry.types.get(name.as_str())
+                    {
+                        *self.cache_control = self.cache_control.merge(cache_control);
+                    }
+                }
+            }
+            None => {}
         }
     }
 
     fn enter_field(&mut self, ctx: &mut VisitorContext<'_>, field: &Positioned<Field>) {
-        if let Some(registry_field) = ctx
-            .parent_type()
-            .and_then(|parent| parent.field_by_name(&field.node.name.node))
-        {
+        let Some(parent) = ctx.parent_type() else {
+            return;
+        };
+        let name = field.node.name.node.as_str();
+        if let Some(registry_field) = parent.field_by_name(name) {
             *self.cache_control = self.cache_control.merge(&registry_field.cache_control);
+        }
+        // The field is resolved by one of the possible types, each with its own hint.
+        for ty in parent.possible_types().into_iter().flatten() {
+            if let Some(registry_field) = ctx
+                .registry
+                .types
+                .get(ty.as_str())
+                .and_then(|ty| ty.field_by_name(name))
+            {
+                *self.cache_control = self.cache_control.merge(&registry_field.cache_control);
+            }
         }
     }
 }
